@@ -135,9 +135,10 @@ def state_env(model_or_decl, variables: dict, time):
     return env
 
 
-def coefficient(factor, env):
+def coefficient(factor, env, data=None):
     if isinstance(factor, Derived):
-        return factor.fn(*(env[a] for a in factor.args))
+        # a named data set is a legitimate argument of a computed coefficient (it is not part of the value table)
+        return factor.fn(*(env[a] if a in env or data is None else data[a] for a in factor.args))
     return factor
 
 
@@ -149,12 +150,12 @@ def rhs(model_or_decl, variables: dict, time, env=None):
     for rname, r in decl.reactions.items():
         for cpd, factor in r.stoichiometry.items():
             if cpd in dx:
-                dx[cpd] = dx[cpd] + coefficient(factor, env) * env[rname]
+                dx[cpd] = dx[cpd] + coefficient(factor, env, decl.data) * env[rname]
     for s in decl.surrogates.values():
         for rname, st in s.stoichiometries.items():
             for cpd, factor in st.items():
                 if cpd in dx:
-                    dx[cpd] = dx[cpd] + coefficient(factor, env) * env[rname]
+                    dx[cpd] = dx[cpd] + coefficient(factor, env, decl.data) * env[rname]
     return dx
 
 
